@@ -200,3 +200,15 @@ Example C14_tsvd_hypotheses_satisfiable :
   tsvd_fact_ok ex_svd exX /\ (exists C, tsvd_fit ROps ex_svd exX 1 = Some C) /\
   orthocols (ncols exX) 1 (fun i _ => if Nat.eqb i 1 then 1 else 0).
 Proof. split; [exact ex_tsvd_fact_ok|]. split; [exact ex_tsvd_fit_some|exact ex_frame]. Qed.
+
+(* correlation mode (EVD path): 3 x 2 data [[1,1],[-1,1],[0,-2]] (column standard deviations
+   sqrt(2/3) and sqrt 2, correlation matrix = identity), an `evd` returning d = (1, 1), V = I *)
+Example C14_pca_correlation_hypotheses_satisfiable :
+  (2 <= nrows exX2)%nat /\
+  (true = true -> forall i, (i < ncols exX2)%nat -> col_sd exX2 i <> 0) /\
+  pca_fact_ok ex_svd2 ex_evd2 exX2 true /\
+  (forall k, (k <= 2)%nat -> exists st, pca_fit ROps ex_svd2 ex_evd2 exX2 k true = Some st).
+Proof.
+  split; [cbn; lia|]. split; [intros _; exact ex2_sd_nonzero|].
+  split; [exact ex2_pca_fact_ok|exact ex2_pca_fit_some].
+Qed.
